@@ -586,12 +586,95 @@ def quiet_part(res, rng, nsessions):
         shutil.rmtree(wd, ignore_errors=True)
 
 
+def burst_part(res, rng, sizes):
+    """Bursts of exactly k x 2048 bytes (the relay's read buffer) and neighbours, each followed by silence on an open
+    connection, in both directions: what was sent must arrive within 3 s without further traffic (never withheld)."""
+    okb, outb, binary = common.build_app("proxy")
+    if not okb:
+        return
+    wd = os.path.join(common.WORK, "C19burst")
+    shutil.rmtree(wd, ignore_errors=True)
+    os.makedirs(os.path.join(wd, "logs"))
+    up = Upstream()
+    up.start()
+    pport, cport = free_port(), free_port()
+    cfg = os.path.join(wd, "proxy.json")
+    with open(cfg, "w") as f:
+        json.dump(dict(remote_host="127.0.0.1:%d" % up.port, proxy_host="127.0.0.1", proxy_port=pport,
+                       control_host="127.0.0.1", control_port=cport, record_messages=True,
+                       message_log_directory=os.path.join(wd, "logs")), f)
+    proc = subprocess.Popen([binary, "-c", cfg], cwd=wd, stdout=subprocess.DEVNULL, stderr=subprocess.DEVNULL)
+    try:
+        for _ in range(100):
+            try:
+                socket.create_connection(("127.0.0.1", pport), timeout=0.2).close()
+                break
+            except OSError:
+                time.sleep(0.05)
+        time.sleep(0.3)
+        for n in sizes:
+            sdata = gen.rand_bytes(rng, n)
+            with up.lock:
+                up.script = [sdata]
+                up.received.clear()
+            res.evaluations += 1
+            res.count("burst of %d bytes each way, then silence on the open connection" % n)
+            case = dict(kind="burst then silence", burst_bytes=n)
+            try:
+                cl = socket.create_connection(("127.0.0.1", pport), timeout=3)
+            except OSError as e:
+                res.add_violation(dict(case, error=str(e), proxy_alive=proc.poll() is None), "the proxy no longer accepts clients")
+                break
+            cdata = gen.rand_bytes(rng, n)
+            got = bytearray()
+            try:
+                time.sleep(0.2)
+                cl.sendall(cdata)
+                t_end = time.time() + 3
+                cl.settimeout(0.2)
+                while time.time() < t_end:
+                    with up.lock:
+                        k = len(up.received)
+                    if k >= n and len(got) >= n:
+                        break
+                    try:
+                        b = cl.recv(65536)
+                        if b:
+                            got.extend(b)
+                    except socket.timeout:
+                        pass
+                    except OSError:
+                        break
+            except OSError as e:
+                res.add_violation(dict(case, error=str(e)), "sending through the proxy failed")
+            with up.lock:
+                recvd = bytes(up.received)
+            if recvd != cdata:
+                res.add_violation(dict(case, server_received_within_3s=len(recvd)), "the client's bytes were withheld from (or altered on the way to) the upstream server while the connection was idle")
+            if bytes(got) != sdata:
+                res.add_violation(dict(case, client_received_within_3s=len(got)), "the server's bytes were withheld from (or altered on the way to) the client while the connection was idle")
+            res.nontrivial.add(("burst", n))
+            try:
+                cl.close()
+            except OSError:
+                pass
+            time.sleep(0.2)
+    finally:
+        up.stop = True
+        proc.kill()
+        try:
+            proc.wait(timeout=5)
+        except Exception:
+            pass
+        shutil.rmtree(wd, ignore_errors=True)
+
+
 def run(res, args):
     res.rule = ("report: ReportFeed.Status() in-process with crafted client/server buffers and queue contents (frames and "
                 "non-RTCM data whose bytes read as HTML); every traffic-derived hole of the page template must be free of '<' "
                 "and '>' and the message list must be the escaped displays; relay: the built proxy binary between a test "
                 "upstream server and a test client on loopback, sessions of valid frames, CRC-valid malformed frames, "
-                "mixed/hostile bytes, NTRIP-like text, many chunkings, both directions; sessions after the operator has switched the message log off through the control port; sessions of 6 MB each way in which both peers stop reading for 6-13 s and then read everything; non-trivial = markup bytes in the "
+                "mixed/hostile bytes, NTRIP-like text, many chunkings, both directions; bursts of exactly 1, 2 or more read buffers (2048 bytes) followed by silence on the open connection; sessions after the operator has switched the message log off through the control port; sessions of 6 MB each way in which both peers stop reading for 6-13 s and then read everything; non-trivial = markup bytes in the "
                 "traffic / sessions over 50 bytes")
     res.assumptions = ["TCP, TLS and statusreporter are the runtime; one client session at a time",
                        "relay integrity depends on the parser never panicking (C07); the dependency is explicit"]
@@ -607,7 +690,11 @@ def run(res, args):
     st.start()
     qt = threading.Thread(target=quiet_part, args=(res, common.rng_for(res.seed, "c19quiet"), 5 if res.tier == "quick" else 20))
     qt.start()
+    bt = threading.Thread(target=burst_part, args=(res, common.rng_for(res.seed, "c19burst"),
+                                                  [2048, 4096, 2047, 1024] if res.tier == "quick" else [1, 512, 1024, 2047, 2048, 2049, 4096, 6144, 8192, 65536]))
+    bt.start()
     relay_part(res, rng, 40 * mult)
+    bt.join(timeout=400)
     st.join(timeout=400)
     qt.join(timeout=400)
     res.traces = res.distribution.get("relay-session", 0)
